@@ -281,6 +281,10 @@ def run(ctx):
                 check_chain(ctx, fn, a, [(nm, b)], OPTSETS)
                 ctx.count("T-" + nm)
                 ctx.count("lang-with-www")
+            for a, b in (("http://a.com/οδός.html", "http://a.com/ΟΔΌΣ.html"), ("http://a.com/x?q=σας", "http://a.com/x?q=ΣΑΣ"), ("http://a.com/a#/οδός/x", "http://a.com/a#/ΟΔΌΣ/x"),
+                         ("http://οδός.gr/x", "http://ΟΔΌΣ.GR/x")):
+                check_chain(ctx, fn, a, [("case-any", b)], OPTSETS[:2])
+                ctx.count("case-flip-of-a-capital-sigma")
             for a, b in (("a.com/?B=1&a=2", "a.com/?%42=1&a=2"), ("a.com/x?ref=FB", "a.com/x?ref=%46B"), ("a.com/Abc/Index.html", "a.com/%41bc/%49ndex.html"), ("a.com/x/b.AMP?Z=1", "a.com/x/b.%41MP?%5A=1")):
                 check_chain(ctx, fn, a, [("escape", b)], OPTSETS)
                 ctx.count("escaped-uppercase")
